@@ -6,7 +6,7 @@ from engine import bind
 from specs import basisfn
 from specs.basisfn import ShellSpec
 
-from .common import Frame, cart_components, make_shell, tag
+from .common import Frame, Seen, cart_components, make_shell, tag
 
 
 def _comps(kind, l):
@@ -107,7 +107,7 @@ class ComposeMoment:
         ea, eb = M.vec("a", Ka, "pos"), M.vec("b", Kb, "pos")
         coa, cob = M.vec("da", (Ka, Ma)), M.vec("db", (Kb, Mb))
         na, nb = M.vec("na", (len(ca), Ka)), M.vec("nb", (len(cb), Kb))
-        seen = {}
+        seen = Seen("compose_moment/pre@callees")
 
         def inter_stub(coord_moment, order_max, coord_a, am, exps_a, coord_b, bm, exps_b):
             seen["inter"] = (coord_moment, order_max, coord_a, am, exps_a, coord_b, bm, exps_b)
